@@ -108,9 +108,9 @@ CLAIMED = {
          "delivered bytes = prefix of the peer's stream (complete for an orderly close).", "5 C15",
          TB + "Partial: the scripted endpoint's post-mortem answers follow Linux TCP (assumed); TLS variants belong to C18.",
          "Coq proof (dead-peer scripts, all sizes/errnos) + correspondence against a scripted TCP endpoint with peer close/half-close/reset at every offset"),
- "C18": ("proof", "Theorems about the TLS glue over an ARBITRARY scripted engine (OpenSSL is an oracle like the OS): outside_the_engine_the_glue_only_waits (between engine calls the glue issues polls and clock "
+ "C18": ("proof", "Theorems about the TLS glue over an ARBITRARY scripted engine (OpenSSL is an oracle like the OS): send_io_inside_engine / receive_io_inside_engine / driver_paths_io_inside_engine (in the trace of a whole TLS Send, Receive, SendSome, driver Receive, DriverPending or Shutdown every send() and recv() lies inside an engine call - the glue never touches the connection itself), outside_the_engine_the_glue_only_waits (between engine calls the glue issues polls and clock "
          "readings only - every byte to or from the connection passes through the engine's BIO callbacks), delivery_needs_engine_data (a Receive reporting n bytes returns what the engine's SSL_read returned: "
-         "nothing before the engine finished the handshake, nothing from a non-TLS peer), fatal_engine_errors_throw, write_accounting, query_requests_write_only_for_handshake, suppressed_write_poll_is_restored, idle_client_requests_write. "
+         "nothing before the engine finished the handshake, nothing from a non-TLS peer), fatal_engine_errors_throw, write_accounting, query_requests_write_only_for_handshake, suppressed_write_poll_is_restored, idle_client_requests_write, pending_only_advances_the_handshake (DriverPending makes SSL_do_handshake calls only: it cannot take application data out of the engine), send_only_writes, receive_only_reads, unlimited_receive_never_nothing. "
          "Correspondence: the real glue (socket_tls_impl.cpp, driver TLS hooks, built WITH_TLS) runs against harness/fakessl.cpp, a scripted engine with OpenSSL's API, the model against TlsModel.engine, on scripts "
          "produced by a virtual TLS-1.3 endpoint and peer (client/server role, basic/buffered/async, every timeout mode, segmentation, back pressure, short writes, non-TLS peer, close_notify, injected fatal errors); "
          "monitored: no engine-foreign byte on the wire, delivery only after init, non-TLS peer => exception, write interest never lost while the handshake owes a flight, wait budget of limited calls, byte-exact plaintext streams.", "5 C18",
